@@ -636,7 +636,7 @@ def exhaustive_space():
 def run(ctx):
     ctx.rule = RULE
     rng = ctx.rng
-    n = ctx.n(2000, 350000)
+    n = ctx.n(1600, 350000)
     for i in range(n):
         sc = gen_scenario(rng, 'v2' if i % 2 == 0 else 'v1')
         R, S = execute(sc)
